@@ -1,2 +1,7 @@
-#!/bin/sh
-exit 0
+#!/bin/bash
+# MANIFEST.setup_cmd: build the whole framework offline from files on disk (harness in both profiles,
+# the CLI and the Python extension of /repo in dev and release).  ~3 min cold.
+set -u
+cd "$(dirname "$0")" || exit 2
+export CARGO_NET_OFFLINE=true
+exec ./check --build-all
